@@ -102,6 +102,10 @@ func (store *eventsStore) AddEvent(event Event) {
 func (store *eventsStore) LoadEvents(height uint32) Events {
 	store.loadCache()
 
+	// the id tables are extended by CommitEvents while API requests decode older heights with them
+	store.RLock()
+	defer store.RUnlock()
+
 	bytes, err := store.db.Get(uint32ToBytes(height))
 	if err != nil {
 		panic(err)
@@ -151,6 +155,11 @@ func (store *eventsStore) CommitEvents(height uint32) error {
 
 	store.pending.Lock()
 	defer store.pending.Unlock()
+
+	// saveAddress / savePubKey below write the id tables
+	store.Lock()
+	defer store.Unlock()
+
 	var data []compact
 	for _, item := range store.pending.items {
 		if stake, ok := item.(Stake); ok {
@@ -187,8 +196,6 @@ func (store *eventsStore) CommitEvents(height uint32) error {
 		return err
 	}
 
-	store.Lock()
-	defer store.Unlock()
 	if err := store.db.Set(uint32ToBytes(height), bytes); err != nil {
 		return err
 	}
